@@ -56,6 +56,9 @@ MUT_OPS = sorted({op for st in MUT_STAGES for op in st})
 REQUIRED_AROUND_MUTATION = [(a, "SetPatchPair", b) for a in ("PatchSum", "Sample", "GetArray")
                             for b in ("PatchSum", "Sample", "GetArray", "EqVar:fresh", "Bins")
                             if not (a == "Sample" and b == "PatchSum") and not (a == "PatchSum" and b == "Sample")]
+# set_patch_pair on a selection (numpy view / fancy-indexed copy) of an older workspace object: the older object must keep its value
+REQUIRED_EDIT_OF_SELECTION = [(c, op, t) for c in ("PatchedCounts", "NormalisedCounts", "CorrFunc") for op in ("Bins", "Patches")
+                              for t in ("slice", "index")]
 REQUIRED_PAIRS = [("GetArray", "Sample"), ("GetArray", "PatchSum"), ("GetArray", "Eq"), ("Sample", "Eq"), ("Sample", "EqVar"),
                   ("PatchSum", "Eq"), ("Sample", "Bins"), ("Bins", "Sample"), ("Bins", "GetArray"), ("Patches", "GetArray"),
                   ("Sample", "Bins:npint"), ("PatchSum", "Bins:npint")]
@@ -209,6 +212,7 @@ def _evaluate(ctx, world, rng, quick, jobs, results) -> None:
     total_pairs: dict = {}
     total_classes: dict = {}
     around_mutation: dict = {}
+    edit_of_selection: dict = {}
     eq_on_undefined = 0
     for label in [k for k in jobs if k.startswith("emit")]:
         res = results[label]
@@ -226,6 +230,8 @@ def _evaluate(ctx, world, rng, quick, jobs, results) -> None:
             total_classes[k] = total_classes.get(k, 0) + n
         for k, n in rp.around_mutation.items():
             around_mutation[k] = around_mutation.get(k, 0) + n
+        for k, n in rp.edit_of_selection.items():
+            edit_of_selection[k] = edit_of_selection.get(k, 0) + n
         eq_on_undefined += rp.eq_on_undefined
         ctx.extra.setdefault("replay", {})[label] = dict(scenarios=len(inits), steps=len(steps), executed=rp.replayed,
                                                           histories=rp.histories, continued_with_model_object=rp.repaired,
@@ -243,6 +249,9 @@ def _evaluate(ctx, world, rng, quick, jobs, results) -> None:
     for tr in REQUIRED_AROUND_MUTATION:
         ctx.require(around_mutation.get(tr, 0) > 0, f"no replayed history {tr[0]} -> SetPatchPair -> {tr[2]}")
     ctx.extra["observations_around_set_patch_pair"] = {"->".join(k): n for k, n in sorted(around_mutation.items())}
+    for ek in REQUIRED_EDIT_OF_SELECTION:
+        ctx.require(edit_of_selection.get(ek, 0) > 0, f"no replayed set_patch_pair on a {ek[2]} selection ({ek[1]}) of a {ek[0]}")
+    ctx.extra["set_patch_pair_on_selections"] = {"|".join(k): n for k, n in sorted(edit_of_selection.items())}
     for ck in REQUIRED_CLASSES:
         ctx.require(total_classes.get(ck, 0) > 0, f"no replayed step of class {ck}")
     ctx.extra["numpy_integer_selections_replayed"] = sum(n for k, n in total_classes.items() if k[2].startswith("npint"))
